@@ -313,7 +313,10 @@ func (dq *Deque[T]) confProducer(direction dqDirection, blocking bool) fun.Produ
 			current = dq.root
 		}
 
-		if current.getNextOrPrevious(direction) == dq.root && blocking {
+		// a loop: when the producer is shared, another caller may
+		// have advanced the cursor while this one was waiting, and
+		// there may be nothing behind the new position yet.
+		for blocking && current.getNextOrPrevious(direction) == dq.root {
 			if err := current.wait(ctx, direction); err != nil {
 				return out, err
 			}
